@@ -20,14 +20,18 @@ use std::rc::Rc;
 pub struct C05 {
     pub templates: HashSet<String>,
     pub max_size: usize,
+    /// only run the workload (for sanitizer layers of other properties): no violation is emitted,
+    /// a sanitizer report / crash is what the driver looks for
+    pub quiet: bool,
 }
 
 impl C05 {
-    pub fn new(max_size: usize) -> C05 {
+    pub fn new(max_size: usize, quiet: bool) -> C05 {
         alloc::set_ceiling(1 << 30);
         C05 {
             templates: HashSet::new(),
             max_size,
+            quiet,
         }
     }
 }
@@ -164,7 +168,9 @@ impl Monitor for C05 {
                 });
             }
         }
-        if !problems.is_empty() {
+        if !problems.is_empty() && self.quiet {
+            rep.inc("problems_not_reported_in_quiet_mode");
+        } else if !problems.is_empty() {
             rep.violation(
                 &format!("{}:{}", pk.name(), kind),
                 J::obj()
